@@ -418,7 +418,18 @@ def _eval(t, env):
         for x in t[2:]:
             r = minv(r, evaluate(x, env))
         return r
-    if h in ("i2f", "ref_to", "int_cast"):
+    if h == "int_cast":
+        # a narrowing / sign-changing integer cast wraps: the value survives only if its interval fits the target type
+        v = evaluate(t[-1], env)
+        rng = {"u8": (0, 2 ** 8 - 1), "u16": (0, 2 ** 16 - 1), "u32": (0, 2 ** 32 - 1), "u64": (0, 2 ** 64 - 1), "usize": (0, 2 ** 64 - 1), "u128": (0, 2 ** 128 - 1),
+               "i8": (-2 ** 7, 2 ** 7 - 1), "i16": (-2 ** 15, 2 ** 15 - 1), "i32": (-2 ** 31, 2 ** 31 - 1), "i64": (-2 ** 63, 2 ** 63 - 1), "isize": (-2 ** 63, 2 ** 63 - 1),
+               "i128": (-2 ** 127, 2 ** 127 - 1)}.get(str(t[1]))
+        if rng is None:
+            return Iv.top(nan=False)
+        if not v.nan and v.lo >= rng[0] and v.hi <= rng[1]:
+            return v
+        return Iv(float(rng[0]), float(rng[1]))
+    if h in ("i2f", "ref_to"):
         return evaluate(t[-1], env)
     if h == "gamma":
         e1 = env.child()
